@@ -230,8 +230,8 @@ PROPS = {
         "assumptions": ["logical-clock stamps bracket the cache call (the handler path adds a barrier COUNT that touches no cache state)"],
     },
     "C06": {
-        "lean_modules": ["MocProps.C06", "MocProps.C06Tables", "MocProps.C06Tombs", "MocProps.C06Query"],
-        "theorem_files": ["MocProps/C06.lean", "MocProps/C06Tables.lean", "MocProps/C06Tombs.lean", "MocProps/C06Query.lean"],
+        "lean_modules": ["MocProps.C06", "MocProps.C06Tables", "MocProps.C06Tombs", "MocProps.C06Query", "MocProps.C06Answer"],
+        "theorem_files": ["MocProps/C06.lean", "MocProps/C06Tables.lean", "MocProps/C06Tombs.lean", "MocProps/C06Query.lean", "MocProps/C06Answer.lean"],
         "gen_groups": ["Sqlite", "Cache", "Matcher"], "harness_prop": "sqlite", "driver_prop": "sqlite", "stateful": True,
         "monitors": ["answer"],
         "n_quick": 6000, "n_thorough": 60000, "thorough_seeds": 3,
@@ -246,8 +246,10 @@ PROPS = {
                       "tables are exactly the tombstones of the inserted deletion requests, so a row is hidden iff some inserted request of the same author names its id or address key, in either "
                       "arrival order (tombstones_after_history, hidden_iff_request, delIdRows_mem). The row test of a filter's sub-select equals 'not hidden and the stored event matches the filter per NIP-01' (rowMatches_eq; tag rows answer #k=v exactly when the event "
                       "has such a tag: tagRows_mem), hence after ANY history the query is buildable and each filter selects exactly the visible stored events matching it, with its limit "
-                      "(candidates_eq, mem_selected). What remains hand-modelled is SQL itself (that SQLite executes the pinned statements as the table functions say) and the final "
-                      "order/limit/union step, which the spec's judgeAnswer describes; "
+                      "(candidates_eq, mem_selected). The final ORDER BY / LIMIT / union step admits several answers when timestamps tie; C06Answer states it relationally (Answers: per filter a "
+                      "selection of min(limit, #candidates) candidates with nothing left out newer than anything taken; the answer lists their union once each, non-increasing) and proves that EVERY "
+                      "such answer passes the judge used for both correspondence and property (answers_accepted, via slot_facts and kth_counts) - so ties cannot cause an alarm. What remains "
+                      "hand-modelled is SQL itself (that SQLite executes the pinned statements as the table functions and Answers say). "
                       "Runtime-validated: every answer of the real database is judged, after every batch, both against the model's tables and against the history-based statement "
                       "(newest version per address, deletions by id/address of the same author in either arrival order, per-filter top-limit with ties, merged, distinct, non-increasing, "
                       "seven fields intact).",
